@@ -16,6 +16,7 @@ package main
 // This file also holds the three helpers shared by the C05 / C06 / C12 drivers (c05CaseRng, c05RunWith, c05Emit).
 
 import (
+	ccpb "github.com/google/go-tdx-guest/proto/checkconfig"
 	"os"
 	"crypto/x509"
 	"fmt"
@@ -308,14 +309,36 @@ func c05SignerMods() []c05Mod {
 			s.RootCrls[i].Revoked = append(s.RootCrls[i].Revoked, c.Serial)
 		}
 	}}
-	return []c05Mod{
+	// a listed certificate is revoked, whatever the entry's date says relative to the verifier's clock and however the CRL's
+	// issuer name is encoded
+	dated := func(name string, which string, d time.Duration, utf8 bool) c05Mod {
+		return c05Mod{"serials", "listed:" + which + "(" + name + ")", false, func(s *world.Spec, rng *rand.Rand) {
+			if which == "leaf@pck" {
+				s.PckCrl.Revoked = append(s.PckCrl.Revoked, s.Cert("leaf").Serial)
+				s.PckCrl.RevokedAt, s.PckCrl.IssuerUTF8 = s.Now[3].Add(d), utf8
+			} else {
+				role := map[string]string{"inter@root": "inter", "tcbsigner@root": "signer"}[which]
+				for i := range s.RootCrls {
+					s.RootCrls[i].Revoked = append(s.RootCrls[i].Revoked, s.Cert(role).Serial)
+					s.RootCrls[i].RevokedAt, s.RootCrls[i].IssuerUTF8 = s.Now[4].Add(d), utf8
+				}
+			}
+		}}
+	}
+	var datedMods []c05Mod
+	for _, which := range []string{"leaf@pck", "inter@root", "tcbsigner@root"} {
+		datedMods = append(datedMods, dated("entry-dated-5min-after-the-verification-time", which, 5*time.Minute, false),
+			dated("entry-dated-a-year-after-the-verification-time", which, 365*24*time.Hour, false),
+			dated("crl-issuer-name-utf8-encoded", which, -time.Hour, true))
+	}
+	return append(datedMods, []c05Mod{
 		twoRoots, reissued,
 		hdrFake("self-signed", true), hdrFake("signed-by-a-foreign-key", false),
 		pck("other-ca-key(root-signs)", 1, "inter"), pck("foreign-key-same-name", 7, "inter"), pck("right-key-name-of-root", 2, "root"),
 		pck("right-key-name-of-tcb-signer", 2, "signer"), pck("right-key-same-cn-other-org", 2, "interOrg"),
 		root("other-ca-key(inter-signs)", 2, "root"), root("foreign-key-same-name", 7, "root"), root("right-key-name-of-inter", 1, "inter"),
 		root("right-key-name-of-tcb-signer", 1, "signer"), root("right-key-same-cn-other-org", 1, "rootOrg"),
-	}
+	}...)
 }
 
 func c05EndpointMods() []c05Mod {
@@ -585,6 +608,41 @@ func c05(r *hx.Run) {
 		}
 		w.Spec.Fault = "reissue:" + which + "-crl-forged-with-the-same-number"
 		c05Run(r, w, true, true, false, "dim:reissue", "reissue:second-call("+which+"-crl-forged-same-number)")
+	}
+	// revocation checking asked for without collateral fetching always fails — also when the options come out of a root-of-trust
+	// configuration (harness-only; the repository's genuine sample quote under the embedded root, which verifies at the base level)
+	for _, rot := range []*ccpb.RootOfTrust{{CheckCrl: true}, {CheckCrl: true, GetCollateral: true}, {}} {
+		var o *verify.Options
+		var err, verr error
+		res, _ := hx.Guard(func() string {
+			o, err = verify.RootOfTrustToOptions(proto.Clone(rot).(*ccpb.RootOfTrust))
+			if err != nil || o == nil {
+				return "rot-err"
+			}
+			at := sampleTime(sampleSPR)
+			o.Now = &verify.TimeSet{PckCertChain: at, TcbInfo: at, QeIdentity: at, PckCrl: at, RootCaCrl: at}
+			o.Getter = &world.Getter{M: map[string]*world.Response{}}
+			q, _ := indepParse(mustRead(sampleSPR))
+			verr = verify.TdxQuote(q, o)
+			if verr != nil {
+				return "err"
+			}
+			return "ok"
+		})
+		want := "err"
+		if !rot.CheckCrl && !rot.GetCollateral {
+			want = "ok"
+		}
+		fail := ""
+		switch {
+		case res == "panic" || res == "rot-err":
+			fail = fmt.Sprintf("RootOfTrustToOptions / TdxQuote: %s %v", res, err)
+		case o.CheckRevocations != rot.CheckCrl || o.GetCollateral != rot.GetCollateral:
+			fail = fmt.Sprintf("the options converted from check_crl=%v get_collateral=%v carry CheckRevocations=%v GetCollateral=%v", rot.CheckCrl, rot.GetCollateral, o.CheckRevocations, o.GetCollateral)
+		case res != want:
+			fail = fmt.Sprintf("check_crl=%v get_collateral=%v through RootOfTrustToOptions: the genuine sample quote (nothing can be fetched) gives %s, the statement says %s", rot.CheckCrl, rot.GetCollateral, res, want)
+		}
+		r.Emit(fmt.Sprintf("# C05.rot check_crl=%d get_collateral=%d", hx.B(rot.CheckCrl), hx.B(rot.GetCollateral)), res, fail, fmt.Sprintf("rot|%v|%v", rot.CheckCrl, rot.GetCollateral), true, "dim:rot")
 	}
 	r.Note("grid", fmt.Sprintf("%d single faults x %d repetitions x 4 option combinations + %d random combinations", len(grid), reps, combos))
 }
